@@ -1936,6 +1936,24 @@ impl NodeMut for XmlElement {
             return Err(error::DomException::WrongDocumentErr)?;
         }
 
+        if let XmlNode::ExpandedText(text) = old_child {
+            // a merged text node stands for all of its pieces
+            let element = self.element.borrow();
+            if text
+                .data
+                .iter()
+                .any(|v| element.child_index(v.id()).is_none())
+            {
+                return Err(error::DomException::NotFoundErr)?;
+            }
+
+            for v in text.data.as_slice() {
+                element.delete(v.id());
+            }
+
+            return Ok(old_child.clone());
+        }
+
         match self.element.borrow().delete(old_child.id()) {
             Some(v) => Ok(XmlNode::from(v)),
             _ => Err(error::DomException::NotFoundErr)?,
